@@ -164,7 +164,7 @@ func (root *Root) getReflectType(meta reflect.Type) (obj Type) {
 		if o != nil {
 			o.mu.Lock()
 			verifPoint("grt_read", o)
-			if o.meta == meta {
+			if sameGoType(o.meta, meta) {
 				obj = o
 				o.mu.Unlock()
 				break
